@@ -38,7 +38,7 @@ func init() {
 	Registry["C18"] = &Prop{
 		Plan: func(tier string) Plan {
 			return Plan{Level: "exploration", NCases: c18Matrix + pick(tier, 16, 3000), Batch: 2, CaseTimeout: 180,
-				Rule: "cases 0-19 (role matrix): every request type of both APIs (etcd Txn create/update/delete, Range get/list/count/partitions, Watch from the next revision and from revision 0 (\"from now\"), range-stream watch, Lease; native Create/Update/Delete/Compact/Get/Range/Count/ListPartition/RangeStream/Watch) x {leader, follower} x {proxy on, off} x {leader reachable, unreachable, HTTP 400, HTTP 500, the recorded leader being a real node that is not leading (its real /status handler answers)}, handlers built over a call-recording Backend, the REAL revision syncer pointed at an httptest leader, a stub election and a recording proxy. " +
+				Rule: "cases 0-27 (role matrix): every request type of both APIs (etcd Txn create/update/delete, Range get/list/count/partitions, Watch from the next revision and from revision 0 (\"from now\"), range-stream watch, Lease; native Create/Update/Delete/Compact/Get/Range/Count/ListPartition/RangeStream/Watch) x {leader, follower} x {proxy on, off} x {leader reachable, unreachable, HTTP 400, HTTP 500, the recorded leader being a real node that is not leading (its real /status handler answers), a 200 answer cut off half-way through its body, a 200 answer whose body is not the revision document}, handlers built over a call-recording Backend, the REAL revision syncer pointed at an httptest leader, a stub election and a recording proxy. " +
 					"oracle: on a follower the backend never sees Create/Update/Delete/Compact/Watch (request rejected Unavailable or handed to the proxy), every backend read is preceded by SetCurrentRevision(v) with v served by the leader during this very request, a failed sync gives an error and no backend read; on the leader writes reach the backend and no sync happens. " +
 					"further cases (two nodes): a leader node and a follower node over one store with the real revision syncer over HTTP; writers on the leader, concurrent readers on the follower; in a third of them the verif hooks hold one reader between fetching and setting the revision while another sits between its own set and its backend read; in another third five readers holding different fetched revisions are released into the set at the same instant (150 rounds). oracle: the follower's response header >= the leader's committed revision sampled before the request began, and the data equals the reference snapshot at the header revision. " +
 					"every 8th further case is a PRODUCTION PAIR: two nodes as cmd/option.Run starts them (pkg/endpoint with multiplexed client and peer ports, server.NewServer, real Campaign, real revision syncer, real etcd proxy when etcd compatibility is on) over one store, requests sent to the follower's client port over gRPC: native writes and watches refused, an etcd write either fails and changes nothing or is executed by the leader exactly once, every read the follower answers contains a write the leader acknowledged before, an etcd watch is refused or shows the leader's events. " +
@@ -76,9 +76,9 @@ func init() {
 	}
 }
 
-var c18Modes = []string{"reachable", "unreachable", "http400", "http500", "recorded-leader-is-not-leading"}
+var c18Modes = []string{"reachable", "unreachable", "http400", "http500", "recorded-leader-is-not-leading", "body-cut-off", "garbage-body"}
 
-const c18Matrix = 20
+const c18Matrix = 28
 
 // peerSvc composes the real revision syncer with a stub election and a recording proxy.
 type peerSvc struct {
@@ -155,6 +155,23 @@ func runC18Matrix(c *harness.Case) {
 			w.Write([]byte("i'm not leader, so can't tell you revision"))
 		case "http500":
 			w.WriteHeader(500)
+		case "garbage-body":
+			// a 200 whose body is not the revision document (a proxy's error page, say)
+			w.WriteHeader(200)
+			w.Write([]byte("<html>upstream temporarily unavailable</html>"))
+		case "body-cut-off":
+			// the answer breaks off after the header and half of the body
+			v := atomic.AddUint64(&next, 1)
+			b, _ := json.Marshal(&revision.LeaderRevision{Revision: v})
+			if hj, ok := w.(http.Hijacker); ok {
+				conn, buf, herr := hj.Hijack()
+				if herr == nil {
+					fmt.Fprintf(buf, "HTTP/1.1 200 OK\r\nContent-Type: application/json\r\nContent-Length: %d\r\n\r\n", len(b))
+					buf.Write(b[:len(b)/2])
+					buf.Flush()
+					conn.Close()
+				}
+			}
 		default:
 			v := atomic.AddUint64(&next, 1)
 			served.Store(v, true)
